@@ -230,7 +230,10 @@ func (c *Client) Send(tag, raw string) Resp {
 	c.C.SetWriteDeadline(time.Now().Add(c.Wait))
 	if _, err := io.WriteString(c.C, raw); err != nil {
 		r.Err = "write: " + err.Error()
-		c.Dead = true
+		// a write that times out means the server is not reading (busy or stuck), not that the connection is gone
+		if !strings.Contains(r.Err, "timeout") {
+			c.Dead = true
+		}
 		return r
 	}
 	return c.ReadResp(tag)
